@@ -358,6 +358,9 @@ def monitor_sub(case, obs, k, w):
                         out.append((dict({"class": "missing", "window": bool(w), "mid": bool(mid), "copy": bool(ft["copy"]), "trunc": bool(ft["trunc"])}, **tag),
                                     "token %d of step %d (seq %d pos %d) does not see the stored entries %s; expected %s, exposed %s"
                                     % (i, si, q, p, missing, exp, seen), {"step": si, "token": i}))
+        elif pr["op"] == "reserve":
+            if st.get("err"):
+                out.append(({"class": "reserve-error"}, "StartForward(reserve) failed with %s" % st["err"], {"step": si}))
         elif pr["op"] == "copy":
             ideal.copy(pr["src"], pr["dst"], pr["len"])
         elif pr["op"] == "rm":
@@ -577,6 +580,11 @@ def gen_history(rng, cfg, klass, nops):
         r = rng.random()
         have = [q for q in seqs if sim.pos(q)]
         free = sim.n - sim.used()
+        if cfg["kind"] in ("causal", "swa") and rng.random() < 0.06:
+            # a reservation pass (worst-case graph): must leave the cache as it is
+            n = rng.randint(1, B)
+            ops.append({"op": "reserve", "seqs": [rng.choice(seqs)] * n, "pos": list(range(n)), "toks": [9000 + i for i in range(n)]})
+            continue
         if free < B and have and rng.random() < 0.6:
             r = 0.45 + 0.2 * rng.random()
         if klass in SWA and r < 0.55:
@@ -753,6 +761,8 @@ def zn(x):
 
 
 def r_op(pr):
+    if pr["op"] == "reserve":
+        return "ZV [" + ";".join("(%d,%s,%d)" % (q, zn(p), t) for q, p, t in zip(pr["seqs"], pr["pos"], pr["toks"])) + "]"
     if pr["op"] == "fwd":
         return "ZF [" + ";".join("(%d,%s,%d)" % (q, zn(p), t) for q, p, t in zip(pr["seqs"], pr["pos"], pr["toks"])) + "]"
     if pr["op"] == "copy":
@@ -766,6 +776,11 @@ def r_out(st, k=0):
     pr = st["prim"]
     if "panic" in st:
         return "BPanic"
+    if pr["op"] == "reserve":
+        if st.get("err"):
+            return "BPanic"
+        f = st["fw"][k]
+        return "(BFwd %d %s %s [])" % (f["loc"], zn(f["min"]), zn(f["max"]))
     if pr["op"] == "fwd":
         if st.get("err") == "full":
             return "BFull"
@@ -936,6 +951,8 @@ def features(case, obs):
                 fs.add("rm-shift")
             else:
                 fs.add("rm-suffix")
+        elif pr["op"] == "reserve":
+            fs.add("reserve")
         elif pr["op"] == "copy":
             fs.add("copy")
         elif pr["op"] == "resume":
